@@ -1,6 +1,6 @@
 SPECIFICATION TSpec
 CONSTANTS
-  Modes = {"legacy"}
+  Versions = {754}
   PackNames = {"A", "B", "C", "D"}
   Statuses = {"accepted"}
   MaxLen = 0
